@@ -372,3 +372,20 @@ Definition check_csv o desc rows text csv : bool := check_csv_code o desc rows t
 
 Definition check_table_out o prec desc rows text : out := ON (check_table_code o prec desc rows text).
 Definition check_csv_out o (prec : list (str * Z)) desc rows text csv : out := ON (check_csv_code o desc rows text csv).
+
+(* ---------- reading a date cell back: Y-MM-DD ---------- *)
+Fixpoint split_on (c : Z) (s : str) : list str :=
+  match s with
+  | [] => [[]]
+  | x :: t => if x =? c then [] :: split_on c t
+              else match split_on c t with h :: r => (x :: h) :: r | [] => [[x]] end
+  end.
+Definition parse_date (s : str) : option (Z * Z * Z) :=
+  match split_on 45 s with
+  | [a; b; c] =>
+      match parse_nat a, parse_nat b, parse_nat c with
+      | Some y, Some m, Some d => Some (y, m, d)
+      | _, _, _ => None
+      end
+  | _ => None
+  end.
